@@ -181,6 +181,7 @@ struct Rsp {
 	uint64_t t_sent_ns, stall_sent;
 	int      delivered;
 	bool     must;     // valid, arrived in time, buffered: must be receivable
+	bool     clean;    // nothing known that keeps it off the wire (see op_respond_raw)
 	const char *how;
 };
 
@@ -240,11 +241,27 @@ on_delivery(SWorld &w, size_t ci, nng_msg *m, uint64_t inv_ms)
 	uint32_t x;
 	if (n == 0) {
 		// zero-length responses carry no tag: attribute to the best
-		// candidate (one for this context's current survey if any)
-		for (size_t i = 0; i < w.rsps.size(); i++)
-			if (w.rsps[i].empty && w.rsps[i].delivered == 0 &&
-			    (rid < 0 || w.rsps[i].sv == c.cur))
-				rid = (int) i;
+		// candidate among the empty responses not yet accounted for.
+		//  3: for this context's current survey and known to be buffered
+		//     here (must); oldest first (buffer is FIFO)
+		//  2: for the current survey and nothing known that kept it off
+		//     the wire; newest first (a delivery that is not from the
+		//     buffer completes a pending receive with the response that
+		//     has just been sent)
+		//  1: for the current survey but probably never transmitted (the
+		//     raw respondent addressed a pipe that is gone, send failed)
+		//  0: carries another survey's id (will be flagged)
+		int best = -1;
+		for (size_t i = 0; i < w.rsps.size(); i++) {
+			const Rsp &e = w.rsps[i];
+			if (!e.empty || e.delivered != 0)
+				continue;
+			int rank = e.sv != c.cur ? 0 : e.must ? 3 : e.clean ? 2 : 1;
+			if (rank > best || (rank == best && rank != 3)) {
+				best = rank;
+				rid  = (int) i;
+			}
+		}
 	} else if (parse_resp(b, n, &x) && x < w.rsps.size()) {
 		rid = (int) x;
 	}
@@ -656,6 +673,7 @@ op_respond_raw(SWorld &w, size_t ri, int variant, int pick)
 	}
 	r.t_sent_ns  = sim_now_ns();
 	r.stall_sent = sim_stall_total_ns();
+	r.clean      = clean;
 	w.rsps.push_back(r);
 	if (r.sv >= 0) {
 		const Survey &rs = w.surveys[(size_t) r.sv];
@@ -678,6 +696,7 @@ op_respond_raw(SWorld &w, size_t ri, int variant, int pick)
 	if (rv != 0) {
 		nng_msg_free(m);
 		clean = false;
+		w.rsps[rid].clean = false;
 	}
 	after_response(w, (int) rid, clean);
 }
@@ -746,6 +765,7 @@ op_respond_cooked(SWorld &w, size_t ri)
 	}
 	rd.pend_any = false;
 	rd.pend_sv  = -1;
+	r.clean     = true;
 	w.rsps.push_back(r);
 	if (r.sv >= 0 && w.ctxs[(size_t) w.surveys[(size_t) r.sv].ctx].cur != r.sv)
 		sim_probe("c07_stale_id_sent");
